@@ -194,6 +194,13 @@ def format_maximum(ctx):
 def run(ctx):
     containers.run_histories(ctx, {"padding"}, RULE + RULE_EXTRA)
     format_maximum(ctx)
+    # MP4: every layout of the C10 family under padding histories: keep what is there, zero, odd, large, in sequence
+    from props import c10
+    H = [[("save", "small", "keep", False), ("save", "5k", "keep", False), ("save", "empty", "keep", False)],
+         [("save", "small", "zero", False), ("save", None, "keep", False), ("save", "5k", "odd", False), ("save", "small", "keep", False)],
+         [("save", "5k", "large", False), ("save", "small", "keep", True), ("save", "cover", "keep", False)],
+         [("save", None, "keep", False), ("save", None, "zero", False), ("save", "small", "odd", True)]]
+    c10.run_shared(ctx, lambda i: [H[i % 4], H[(i + 1) % 4]] if ctx.quick else H, "c09")
     flac_deleteid3(ctx)
     ogg_foreign_paging(ctx)
     id3file_tie.run(ctx)
